@@ -20,6 +20,7 @@ import random
 import re
 from datetime import datetime, timedelta, timezone
 
+from harness.pyprelude import PreludeKernels
 from vlib.core import Check, Stream, b01, hs, hx, line, opt, out_list
 
 T0 = 1767225600  # 2026-01-01T00:00:00Z
@@ -774,14 +775,15 @@ class ParserStream(Stream):
 
 CHECK = Check(
     prop="C11",
-    gen=["RangeTbl"],
-    modules=["WzVerif.Props.C11"],
-    streams=[ConditionalStream(), RangesStream(), ParserStream()],
+    gen=["RangeTbl", "PyFns_Range"],
+    modules=["WzVerif.Props.C11", "WzVerif.Props.C11T"],
+    streams=[ConditionalStream(), RangesStream(), ParserStream(), PreludeKernels()],
     assumptions=[
         "parse_date (email.utils) is an opaque parameter of the model: the harness supplies the parsed instant of every date header as integer epoch seconds; datetime comparison = comparison of those integers after flooring last_modified to whole seconds",
         "a FileWrapper over a file object yields blocks of at most buffer_size bytes and never an empty block; seek/tell of the underlying file behave like io.BytesIO (validated by stream ranges)",
         "str.lower()/strip() are modelled for ASCII header text without line feeds (WSGI header values); other text is checked by the oracle only",
         "_etag_re, _plain_int_re and the split/strip calls of parse_range_header are hand-modelled and validated by streams parsers / ranges",
+        "is_byte_range_valid is regenerated from the source by tools/py2lean.py (Gen/PyFns_Range.lean) on every run and proved equal to the hand model for all inputs (Props/C11T); the CPython primitives the translated code calls are modelled in Util/PyPrelude.lean and validated by stream prelude-kernels",
     ],
     trusted_extra=["CPython re / str / datetime / io semantics for the modelled primitives (validated by the streams, not verified)"],
     quick_budget=2500,
